@@ -144,6 +144,31 @@ def wantOf (kind fs : String) : String × Option (String × String) :=
     | none => (fs, none)
   else (canonFields kind fs, none)
 
+/-- message type byte → kind (certificateRequest / certificateVerify carry signatureAndHash from TLS 1.2 on) -/
+def kindOfType (t : UInt8) (tls12 : Bool) : Option String :=
+  if t = 1 then some "chl" else if t = 2 then some "shl" else if t = 4 then some "nst" else if t = 11 then some "crt"
+  else if t = 12 then some "ske" else if t = 13 then some (if tls12 then "cr1" else "cr0") else if t = 14 then some "shd"
+  else if t = 15 then some (if tls12 then "cv1" else "cv0") else if t = 16 then some "cke" else if t = 20 then some "fin"
+  else if t = 22 then some "cst" else if t = 67 then some "npn" else none
+
+def renderHsErr : HsErr → String
+  | .eof => "err:eof"
+  | .oversize => "err:other"
+  | .notTLS => "err:other"
+  | .alert a => "err:alert:" ++ toString a
+
+/-- model of Conn.readHandshake on plaintext records -/
+def readHS (haveVers tls12 : Bool) (records : List Bytes) : String :=
+  match readHandshakeBytes haveVers records with
+  | .error e => renderHsErr e
+  | .ok msg =>
+    match kindOfType (msg.getD 0 0) tls12 with
+    | none => "err:alert:10"
+    | some kind =>
+      match umKind kind msg with
+      | some r => if r.startsWith "ok" then kind ++ " " ++ r else if r == "rej" then "err:alert:10" else "crash"
+      | none => "bad-op"
+
 def lenTag (n : Nat) : String :=
   if n == 0 then "len0" else if n < 255 then "len<255" else if n ≤ 257 then "len~256"
   else if n < 65535 then "len<64k" else if n ≤ 65537 then "len~64k" else "len>64k"
@@ -173,6 +198,23 @@ def run (op impl : String) : Ans :=
                      else "ok"
           tags := ["rt", kind, lenTag bytes.length, if wf then "wf" else "beyond-wire-limits"] ++ (if wf then ["nt"] else []) }
       | none => { model := "bad-op", verdict := "skip" }
+    | none => { model := "bad-op", verdict := "skip" }
+  | ["rh", flags, chunks] =>
+    match optAll ((chunks.splitOn ",").map bytesOfHex) with
+    | some recs =>
+      let hv := flags.toList.getD 0 '0' == '1'
+      let tls12 := flags.toList.getD 1 '0' == '1'
+      let m := readHS hv tls12 recs
+      -- segmentation must not matter: as long as no record trips a size rule, the result is the one for the
+      -- same bytes delivered in a single record
+      let small := recs.all fun r => r.length < 0x3000
+      let whole := readHS hv tls12 [recs.foldr (· ++ ·) []]
+      let total := (recs.foldr (· ++ ·) ([] : Bytes)).length
+      { model := m
+        verdict := if impl.startsWith "PANIC" then "FAIL:panic-readHandshake"
+                   else if small && total < 0x3000 && impl != whole then "FAIL:segmentation-changes-result" else "ok"
+        tags := ["rh", if m.startsWith "err" then "rejected" else "accepted", "recs" ++ toString (min recs.length 6)] ++
+                (if recs.length > 1 then ["nt"] else []) }
     | none => { model := "bad-op", verdict := "skip" }
   | ["ex", kind, _] =>
     { model := impl
